@@ -48,7 +48,7 @@ def run(ctx: vlib.Ctx):
     cases, bad, log = tycorr.run(ctx, "c03_ty", ctx.budget(60, 400), 2, depth=3, foreign=4)
     hits = tyoracle.report_corr(ctx, "TyModel.uk/ref_dec vs BasicDecoder.decode", cases, bad, log, want="dec")
 
-    n = ctx.budget(250, 2500) if not hits else ctx.budget(1500, 6000)
+    n = ctx.budget(800, 5000) if not hits else ctx.budget(2500, 10000)
     for fam, ns, t, ty, sg in tyoracle.schema_stream(ctx.rng, n):
         try:
             dec = BasicDecoder(ty)
